@@ -76,6 +76,8 @@ package varmq
 //@   ensures [succeeds]   old(j.status) != processing && old(j.status) != closed && (j.ackId == "" || !$impl(IAcknowledgeable, j.queue)) ==> result == nil
 //@   ensures [ackonce]    $acks(j.queue) == old($acks(j.queue)) || ($acks(j.queue) == old($acks(j.queue)) + 1 && $lastAck(j.queue) == j.ackId && j.ackId != "")
 //@   ensures [ri]         RI_job(j)
+// C16/C05: whoever is released from Wait must already read Closed: the status is stored before the handle's waiters are released
+//@   assert [closed-before-release] before call sync.WaitGroup.Done: j.status == closed
 
 //@ func job.Wait
 //@   props C05
